@@ -85,7 +85,7 @@ def domain_of(u, env):
         vals.append(None)
         vals.append('other-value')
     elif u['fmt_d']:
-        vals = [None, 3]
+        vals = [None, 3, 0]          # 0 is a legal size / index and the classic victim of truthiness tests
     elif u['value']:
         vals = [None, 'v']
     elif u['none'] and not u['truth']:
